@@ -1,0 +1,93 @@
+// Verification hooks.  Only compiled with `--cfg jj_vcs_jj_verif`; the
+// regular build does not contain this module and none of its call sites.
+
+//! Scheduling / crash points for model-based conformance checking.
+//!
+//! A *point* is announced immediately before a step that touches shared
+//! durable state (a file in a heads directory, a rename of a temp file, a
+//! working-copy file, ...).  By default a point does nothing.  A test harness
+//! can
+//!
+//! * install an in-process handler ([`set_handler`]) that blocks the calling
+//!   thread until a scheduler grants the step, or unwinds it to emulate a
+//!   crash;
+//! * or, for a separate `jj` process, set `JJ_VERIF_TRACE=<file>` to append
+//!   one line per point, and `JJ_VERIF_CRASH_AT=<n>` to abort the process
+//!   when the n-th point (1-based) is reached, i.e. before that step happens.
+
+use std::io::Write as _;
+use std::sync::Arc;
+use std::sync::OnceLock;
+use std::sync::RwLock;
+use std::sync::atomic::AtomicBool;
+use std::sync::atomic::AtomicU64;
+use std::sync::atomic::Ordering;
+
+/// Handler invoked with `(site, detail)` at every point.
+pub type Handler = dyn Fn(&str, &str) + Send + Sync;
+
+static HANDLER: RwLock<Option<Arc<Handler>>> = RwLock::new(None);
+static LOCK_DISABLED: AtomicBool = AtomicBool::new(false);
+static COUNT: AtomicU64 = AtomicU64::new(0);
+
+struct EnvConf {
+    trace: Option<std::path::PathBuf>,
+    crash_at: Option<u64>,
+}
+
+fn env_conf() -> &'static EnvConf {
+    static CONF: OnceLock<EnvConf> = OnceLock::new();
+    CONF.get_or_init(|| EnvConf {
+        trace: std::env::var_os("JJ_VERIF_TRACE").map(Into::into),
+        crash_at: std::env::var("JJ_VERIF_CRASH_AT")
+            .ok()
+            .and_then(|s| s.parse().ok()),
+    })
+}
+
+/// Installs (or removes) the in-process handler.
+pub fn set_handler(handler: Option<Arc<Handler>>) {
+    *HANDLER.write().unwrap() = handler;
+}
+
+/// Makes advisory locks of the hooked stores ineffective (emulates a file
+/// system where locking does not work).
+pub fn set_lock_disabled(disabled: bool) {
+    LOCK_DISABLED.store(disabled, Ordering::SeqCst);
+}
+
+/// Whether advisory locks of the hooked stores are to be skipped.
+pub fn lock_disabled() -> bool {
+    LOCK_DISABLED.load(Ordering::SeqCst)
+}
+
+/// Announces a step that is about to touch shared durable state.
+pub fn point(site: &str, detail: &str) {
+    let handler = HANDLER.read().unwrap().clone();
+    if let Some(handler) = handler {
+        handler(site, detail);
+    }
+    let conf = env_conf();
+    if conf.trace.is_none() && conf.crash_at.is_none() {
+        return;
+    }
+    let n = COUNT.fetch_add(1, Ordering::SeqCst) + 1;
+    if let Some(path) = &conf.trace
+        && let Ok(mut file) = std::fs::OpenOptions::new()
+            .create(true)
+            .append(true)
+            .open(path)
+    {
+        let crash = conf.crash_at == Some(n);
+        writeln!(
+            file,
+            "{} {n} {site} {detail}{}",
+            std::process::id(),
+            if crash { " CRASH" } else { "" }
+        )
+        .ok();
+    }
+    if conf.crash_at == Some(n) {
+        std::process::abort();
+    }
+}
